@@ -1029,7 +1029,7 @@ class Interp:
             raise Unsupported('call depth')
         self.curfn.append(f)
         self.fn_used.add(f.name)
-        h = self.hooks.get('enter:' + f.last)
+        h = self.hooks.get('enter:' + f.last) or self.hooks.get('enterfn:' + f.name)
         if h is not None:
             h(self, args)
         try:
@@ -1180,7 +1180,9 @@ class Interp:
         b0 = f.blocks.get(0)
         if b0 is not None and b0 and isinstance(b0[0], str):
             for k, lst in f.blocks.items():
-                f.blocks[k] = ([parse_stmt_safe(s) for s in lst[:-1]], parse_term_safe(lst[-1]))
+                stmts = [parse_stmt_safe(s) for s in lst[:-1]]
+                _fix_closure_captures(stmts)
+                f.blocks[k] = (stmts, parse_term_safe(lst[-1]))
         return f.blocks
 
     def _run(self, f, args):
@@ -1283,6 +1285,32 @@ class Interp:
         if t == 'unsupported':
             raise Unsupported(tm[1] + ' in ' + f.name)
         raise Unsupported('terminator ' + str(tm))
+
+
+def _fix_closure_captures(stmts):
+    """rustc's MIR printer names closure captures by root variable and zips the names with the operands, so with
+    disjoint field captures (`loader.graph`, `loader.builddir`, `hashes`) the LAST operands are not printed.  They are the
+    temporaries assigned between the last printed capture and the closure aggregate: recover them."""
+    for i, st in enumerate(stmts):
+        if st[0] != 'assign' or st[2][0] != 'agg' or not str(st[2][1]).startswith('closure@'):
+            continue
+        ops = list(st[2][3])
+        listed = [op[1][0] for op in ops if op[0] in ('move', 'copy') and not op[1][1]]
+        if not listed:
+            continue
+        last = max(listed)
+        # position of the statement assigning the last listed capture
+        j = i - 1
+        while j >= 0 and not (stmts[j][0] == 'assign' and stmts[j][1] == (last, ())):
+            j -= 1
+        if j < 0:
+            continue
+        extra = []
+        for st2 in stmts[j + 1:i]:
+            if st2[0] == 'assign' and not st2[1][1] and st2[2][0] in ('ref', 'use') and st2[1][0] > last:
+                extra.append(('move', (st2[1][0], ())))
+        if extra:
+            stmts[i] = ('assign', st[1], ('agg', st[2][1], st[2][2], tuple(ops + extra), st[2][4]))
 
 
 def parse_stmt_safe(s):
